@@ -194,6 +194,53 @@ def exhaustive(report, drv, stores):
     report.coverage["exhaustive_permutation_histories"] = n
 
 
+def burst_history(report, drv, store, evs, tag, rng):
+    """LMDB: the events arrive in bursts — several are acknowledged and queued before the writer thread gets to write the
+    first of them (it is busy, or waits for the write lock).  When the queue has drained, the store must be what the same
+    events give one at a time: in particular a version accepted after a strictly older version of its address has replaced it."""
+    store.reset()
+    lines = [{"op": "kv.reset"}]
+    by_id, order, accepted = {}, {}, []
+    i = 0
+    in_model = True
+    while i < len(evs):
+        group = evs[i:i + rng.choice([2, 3, 4])]
+        i += len(group)
+        for n in group:
+            res = store.submit(n)
+            by_id.setdefault(n["id"], n)
+            if res["ok"]:
+                order.setdefault(n["id"], len(order))
+                accepted.append(n)
+                me = model_event(n)
+                if me is None:
+                    in_model = False
+                elif not (20000 <= n["kind"] < 30000):
+                    lines.append({"op": "kv.task", "task": {"t": "add", "ev": me}})
+        store.quiesce()
+    after = store.ids()
+    payload = {"backend": "kv", "case": "burst", "events": evs}
+    for n in accepted:
+        if n["id"] not in after or address(n) is None:
+            continue
+        older = [o for o in accepted if o["id"] in after and o["id"] != n["id"] and address(o) == address(n)
+                 and o["created_at"] < n["created_at"] and order[o["id"]] < order[n["id"]]]
+        if older:
+            report.property_failure(
+                "kv: %s (kind %d, d=%r, t=%d) was accepted after %d older version(s) of its address in a burst of queued events; "
+                "when the writer had drained its queue they were still stored"
+                % (n["id"][:8], n["kind"], address(n)[2], n["created_at"], len(older)), payload, None)
+            break
+    if in_model:
+        got = drv.batch(lines + [{"op": "kv.dump"}])
+        if got[-1] != store.dump():
+            report.correspondence_break("kv add_event (replaceable, burst)", payload, {"n": len(store.dump())}, {"n": len(got[-1])})
+    report.case(("kv", "burst", tag, repr([(e["kind"], e["created_at"], e["tags"]) for e in evs])),
+                nontrivial=any(address(e) is not None for e in evs),
+                sample={"backend": "kv", "case": "burst", "events": [(e["kind"], e["created_at"], e["tags"]) for e in evs[:6]]})
+    report.count("burst_histories_kv")
+
+
 def run(report, tier, seed):
     rng = random.Random(seed)
     drv = common.Driver()
@@ -201,7 +248,8 @@ def run(report, tier, seed):
     report.coverage["rule"] = (
         "histories of 2-7 events over 2 authors x kinds {0,3,1,10002,30000,30001} x d in {absent, bare, '', a, ab, abc, "
         "b, é} (+ second d tags) x 5 timestamps incl. equal ones, random arrival order, resubmissions, versions that the backend "
-        "refuses late (a bare expiration tag makes the SQL tag indexing raise after pre_save); both backends; "
+        "refuses late (a bare expiration tag makes the SQL tag indexing raise after pre_save); both backends; LMDB also in "
+        "bursts of 2-4 events acknowledged and queued before the writer runs; "
         "after every event: correspondence of the stored set with the Lean model and the three clauses of C09 on the real "
         "store; non-trivial = the history contains a replaceable kind")
     report.assumptions += ["validators disabled (synthetic unsigned events); admission is C03/C06/C16's business"]
@@ -215,6 +263,8 @@ def run(report, tier, seed):
             evs = gen_history(rng, rng.randint(2, 7))
             for st in stores:
                 run_history(report, drv, st, evs, i)
+            if i % 4 == 0:
+                burst_history(report, drv, stores[0], gen_history(rng, rng.randint(3, 8)), i, rng)
         if tier == "thorough":
             exhaustive(report, drv, stores)
     finally:
